@@ -14,8 +14,14 @@ demo=""; place=""; run=""
 if [ -f "$SRC/main.go" ]; then demo=main.go; place="cmd_demo/main.go"; run="go run ./cmd_demo"; fi
 if [ -d "$SRC/cmd_demo" ]; then demo=cmd_demo; place="cmd_demo"; run="go run ./cmd_demo"; grep -q -- "-tags verif" "$SRC/README.md" && run="go run -tags verif ./cmd_demo"; fi
 for f in "$SRC"/*_test.go; do [ -f "$f" ] || continue; demo="$(basename "$f")"
-  pkgdir=$(grep -o '[a-z_]*/zz[A-Za-z0-9_]*_test.go\|[a-z_]*/[A-Za-z0-9_]*demo[A-Za-z0-9_]*_test.go' "$SRC/README.md" | head -1 | xargs -r dirname)
-  [ -z "$pkgdir" ] && pkgdir=testcases
+  pk=$(grep -m1 '^package ' "$f" | awk '{print $2}')
+  case "$pk" in
+    regulator|regulator_test) pkgdir=regulator;;
+    pot|pot_test) pkgdir=pot;;
+    settlement|settlement_test) pkgdir=settlement;;
+    combination|combination_test) pkgdir=combination;;
+    *) pkgdir=testcases;;
+  esac
   place="$pkgdir/$demo"; run="go test -vet=off -count=1 ./$pkgdir -run ."; done
 [ -n "$demo" ] || { echo "SEED $NAME: no demo found"; exit 3; }
 mkdir -p "$WT/$(dirname "$place")"; cp -r "$SRC/$demo" "$WT/$place"
